@@ -1,7 +1,7 @@
-\* exhaustive: directory without an entry of its own (e/f), missing paths, the root, an empty file
+\* exhaustive: landmarks already in the input, spelled plain, ./x and /x, with and without a prioritized list, also listed themselves
 CONSTANTS
-    UseEntries = {1, 2, 3, 4, 5, 11}
-    PrioAlphabet = {"e/f", "a/x", "./a/c", "/", "e", "d"}
+    UseEntries = {3, 9, 10, 13, 14, 15}
+    PrioAlphabet = {"a/b", "./.prefetch.landmark", ".no.prefetch.landmark"}
     MaxTar = 3
     MaxPrio = 2
     WithLayout = FALSE
